@@ -9,7 +9,7 @@ cp /repo/go.sum harness/go.sum
 (cd harness && go run ./cmd/extractlayout -repo /repo -shim /verif/cshim-layout -lean /verif/lean/Bng/Gen/Layout.lean && cd ../lean && lake build Bng.Spec.C06 bngdrv-layout) || true   # C06: regenerate the layout tables, build their theorems and driver (a translator failure is reported by ./check C06)
 (cd harness && go run ./cmd/extractpaths -repo /repo -out /verif/lean/Bng/Gen/Paths.lean && cd ../lean && lake build Bng.Spec.C16Paths) || true   # C16: regenerate the termination-path table and its theorems (a translator failure is reported by ./check C16)
 (cd harness && go run ./cmd/extractguards -repo /repo -out /verif/lean/Bng/Gen/Guards.lean && cd ../lean && lake build Bng.Spec.C04Guards) || true   # C04: regenerate the handlers guard table and its theorems (a translator failure is reported by ./check C04)
-(cd harness && go run ./cmd/extractlocks -repo /repo -out /verif/lean/Bng/Gen/Locks.lean && cd ../lean && lake build Bng.Spec.C02Locks Bng.Spec.C08Locks Bng.Spec.C19Locks Bng.Spec.C05Locks Bng.Spec.C10Locks Bng.Spec.C13Locks Bng.Spec.C14Locks Bng.Spec.C16Locks Bng.Spec.C17Locks Bng.Spec.C20Locks) || true   # lock-discipline table and its theorems (a translator failure is reported by the checks that list them)
+(cd harness && go run ./cmd/extractlocks -repo /repo -out /verif/lean/Bng/Gen/Locks.lean && cd ../lean && lake build Bng.Spec.C02Locks Bng.Spec.C12Locks Bng.Spec.C08Locks Bng.Spec.C19Locks Bng.Spec.C05Locks Bng.Spec.C10Locks Bng.Spec.C13Locks Bng.Spec.C14Locks Bng.Spec.C16Locks Bng.Spec.C17Locks Bng.Spec.C20Locks) || true   # lock-discipline table and its theorems (a translator failure is reported by the checks that list them)
 (cd harness && go build -tags verif -o /dev/null ./cmd/... 2>&1 || (cd /verif/harness && for d in cmd/*; do go build -tags verif -o /dev/null ./$d; done))
 [ -d cshim ] && [ -f cshim/build.sh ] && sh cshim/build.sh || true
 # per-property trace replayers (drv-cNN): generated from lean/Main.lean + checks/*.py, then built one by one so that
